@@ -95,3 +95,29 @@ func c19R5(h H) {
 		r.Unresolve("R5", "ReverseProxy.ServeHTTP: no WriteHeader of the backend's StatusCode found")
 	}
 }
+
+// c19R6: the relay has no panic of its own.  Which branch of ReverseProxy.ServeHTTP runs is decided by the backend's
+// response (status 101 with `Upgrade: websocket` selects the tunnel branch whether or not the client asked for an
+// upgrade); an explicit panic there is a panic a peer can trigger.
+func c19R6(h H) {
+	r := h.r
+	r.Rule("R6", "no explicit panic in the proxy's relay: ReverseProxy.ServeHTTP (and single-caller helpers it was split into) contains no panic statement — its branches are selected by what the backend answers", 1)
+	fn0 := h.fn("R6", pxPkg, "(*ReverseProxy).ServeHTTP")
+	if fn0 == nil {
+		return
+	}
+	n := 0
+	for _, fn := range withHelpers(fn0, 2) {
+		k := 0
+		allInstrs(fn, func(in ssa.Instruction) {
+			if _, ok := in.(*ssa.Panic); ok && in.Pos().IsValid() { // (go/ssa's own "unreachable" panics have no position)
+				k++
+				n++
+				r.Check(false, "R6", sprintf("%s/explicit-panic#%d", shortFunc(fn), k), in.Pos(), "a panic statement on a path the backend's response selects")
+			}
+		})
+	}
+	if n == 0 {
+		r.Check(true, "R6", shortFunc(fn0)+"/no-explicit-panic", fn0.Pos(), "the relay reports failures as errors")
+	}
+}
